@@ -80,6 +80,7 @@ type Exec struct {
 	oblCount map[string]int
 	entry    *State
 	usedModels map[string]string
+	axiomsLoaded bool
 }
 
 func (x *Exec) fail(format string, a ...interface{}) {
@@ -612,7 +613,7 @@ func (x *Exec) zeroVal(st *State, t types.Type) Val {
 		}
 		return &SliceV{Back: -1, Off: IntLit(0), Len: IntLit(0), Elem: u.Elem()}
 	case *types.Array:
-		if isByte(u.Elem()) {
+		if isByte(u.Elem()) && u.Len() > 64 {
 			return T{S: smtStrLit(make([]byte, u.Len())), So: SString}
 		}
 		a := &ArrV{Elem: u.Elem()}
